@@ -681,6 +681,8 @@ def r9_batch_split(repo: Repo, rep):
 
 
 def run(repo: Repo, rep):
+    from .c12 import r8_no_derived_state  # a wrapped function receives the coordinates of the points it is called on: Points must rebuild the name -> column views from its current tensor
+    r8_no_derived_state(repo, rep)
     r9_batch_split(repo, rep)
     r8_points_dispatch(repo, rep)
     r1_keyword_only(repo, rep)
